@@ -300,6 +300,7 @@ package service
 //@   requires [singletons!init] MinerManagerImpl != nil
 //@   ensures result != nil ==> fresh(result) && Z(result.Stake) == @select(ghost(mstake), old(bytes(minerId))) && bytes(result.Id) == old(bytes(minerId))
 //@   ensures [both] (result != nil) == (@select(@select(ghost(mrec), Z(common.MinerTypeProposer)), old(bytes(minerId))) || @select(@select(ghost(mrec), Z(common.MinerTypeValidator)), old(bytes(minerId))))
+//@   ensures [status] result != nil ==> Z(result.Status) == @select(ghost(mstatus), old(bytes(minerId))) && @select(@select(ghost(mrec), Z(result.Type)), old(bytes(minerId)))
 //@   modifies nothing
 
 // Scheduling refunds (C20): a credit already scheduled for a payout height and an account is never lowered by
